@@ -118,6 +118,15 @@ def c10(G1, G2, n=4, same_object=False):
                    [(S.V(('m', h[1])), tuple(S.V(('m', s[1])) if S.is_var(s) else (S.V(('s', G2[0][1])) if s[1] == t0 else s) for s in bd)) for h, bd in G1[1]] +
                    [(S.V(('s', h[1])), tuple(S.V(('s', s[1])) if S.is_var(s) else s for s in bd)) for h, bd in G2[1]])
         run('substitute', lambda: a.substitute({Terminal(t0): b}), S.lang(ref, n))
+        if len(ts) > 1:
+            # chained substitution: the second grammar is substituted into the result of the first (fresh names of step 1 meet those of step 2)
+            t1 = ts[1]
+            def sub_ref(host, tval, other, tag_):
+                return S.mk(S.V((tag_, host[0][1])),
+                            [(S.V((tag_, h[1])), tuple(S.V((tag_, s_[1])) if S.is_var(s_) else (S.V((tag_ + 's', other[0][1])) if s_[1] == tval else s_) for s_ in bd)) for h, bd in host[1]] +
+                            [(S.V((tag_ + 's', h[1])), tuple(S.V((tag_ + 's', s_[1])) if S.is_var(s_) else s_ for s_ in bd)) for h, bd in other[1]])
+            ref2 = sub_ref(sub_ref(G1, t0, G2, 'm'), t1, G2, 'n')
+            run('substitute.substitute', lambda: a.substitute({Terminal(t0): b}).substitute({Terminal(t1): b}), S.lang(ref2, n))
     if (S.extract(a), S.extract(b)) != before: fails.append(fail('C19.operand-unchanged', 'a CFG operation changed an operand'))
     return fails
 
